@@ -4,34 +4,127 @@ From GG Require Import Base.Strs Model.GoTypes Model.GoAst Model.Annots Model.An
 Import ListNotations.
 Local Open Scope string_scope.
 
-(* ---------- types.Identical (library model) ---------- *)
-Lemma identical_refl t : identical t t = true.
-Proof. apply String.eqb_refl. Qed.
-Lemma identical_sym a b : identical a b = identical b a.
-Proof. apply String.eqb_sym. Qed.
-Lemma identical_trans a b c : identical a b = true -> identical b c = true -> identical a c = true.
-Proof. unfold identical. rewrite !String.eqb_eq. congruence. Qed.
+(* ---------- types.Identical (library model): equality of normal forms ---------- *)
+Section TytInd.
+Variable P : tyt -> Prop.
+Hypothesis Hbasic : forall k n, P (YBasic k n).
+Hypothesis Hnamed : forall p n, P (YNamed p n).
+Hypothesis Hptr : forall t, P t -> P (YPtr t).
+Hypothesis Hslice : forall t p, P t -> P (YSlice t p).
+Hypothesis Harray : forall n t p, P t -> P (YArray n t p).
+Hypothesis Hmap : forall k v p, P k -> P v -> P (YMap k v p).
+Hypothesis Hchan : forall d t p, P t -> P (YChan d t p).
+Hypothesis Hfunc : forall ps rs v p, Forall P ps -> Forall P rs -> P (YFunc ps rs v p).
+Hypothesis Hstruct : forall m ts p, Forall P ts -> P (YStruct m ts p).
+Hypothesis Hiface : forall ns ss p, Forall P ss -> P (YIface ns ss p).
+Hypothesis Halias : forall p r, P r -> P (YAlias p r).
+Hypothesis Hopaque : forall p, P (YOpaque p).
 
-(* aliases are transparent, on either side and at any depth below pointers *)
+Fixpoint tyt_ind' (t : tyt) : P t :=
+  let fix G (l : list tyt) : Forall P l := match l with [] => Forall_nil P | x :: r => Forall_cons x (tyt_ind' x) (G r) end in
+  match t with
+  | YBasic k n => Hbasic k n
+  | YNamed p n => Hnamed p n
+  | YPtr e => Hptr e (tyt_ind' e)
+  | YSlice e p => Hslice e p (tyt_ind' e)
+  | YArray n e p => Harray n e p (tyt_ind' e)
+  | YMap k v p => Hmap k v p (tyt_ind' k) (tyt_ind' v)
+  | YChan d e p => Hchan d e p (tyt_ind' e)
+  | YFunc ps rs v p => Hfunc ps rs v p (G ps) (G rs)
+  | YStruct m ts p => Hstruct m ts p (G ts)
+  | YIface ns ss p => Hiface ns ss p (G ss)
+  | YAlias p r => Halias p r (tyt_ind' r)
+  | YOpaque p => Hopaque p
+  end.
+End TytInd.
+
+Definition leqb : list tyt -> list tyt -> bool :=
+  fix leqb (l1 l2 : list tyt) : bool :=
+    match l1, l2 with
+    | [], [] => true
+    | x :: r, y :: s => tyt_eqb x y && leqb r s
+    | _, _ => false
+    end.
+
+Lemma leqb_eq l1 : Forall (fun x => forall y, tyt_eqb x y = true <-> x = y) l1 -> forall l2, leqb l1 l2 = true <-> l1 = l2.
+Proof.
+  induction l1 as [|x r IH]; intros HF [|y s]; simpl; try (split; [discriminate|discriminate]); [tauto|].
+  inversion HF as [|? ? Hx Hr]; subst. rewrite andb_true_iff, (Hx y), (IH Hr s). split; [intros [-> ->]; reflexivity|intros H; inversion H; auto].
+Qed.
+
+Lemma opt_str_eqb_eq a b : opt_str_eqb a b = true <-> a = b.
+Proof. destruct a, b; simpl; try (split; [discriminate|discriminate]); [|tauto]. rewrite String.eqb_eq. split; [intros ->; reflexivity|intros H; inversion H; reflexivity]. Qed.
+
+Lemma list_eqb_eq {A} (eqb : A -> A -> bool) : (forall x y, eqb x y = true <-> x = y) -> forall a b, list_eqb eqb a b = true <-> a = b.
+Proof.
+  intros H a. induction a as [|x r IH]; intros [|y s]; simpl; try (split; [discriminate|discriminate]); [tauto|].
+  rewrite andb_true_iff, H, IH. split; [intros [-> ->]; reflexivity|intros E; inversion E; auto].
+Qed.
+
+Lemma meta_eqb_eq x y : meta_eqb x y = true <-> x = y.
+Proof.
+  destruct x as [[n1 e1] t1], y as [[n2 e2] t2]. simpl. rewrite !andb_true_iff, !String.eqb_eq, Bool.eqb_true_iff.
+  split; [intros [[-> ->] ->]; reflexivity|intros H; inversion H; auto].
+Qed.
+
+Theorem tyt_eqb_eq a : forall b, tyt_eqb a b = true <-> a = b.
+Proof.
+  induction a using tyt_ind'; intros b; destruct b; cbn [tyt_eqb]; try (split; [discriminate|discriminate]).
+  - rewrite andb_true_iff, !String.eqb_eq. split; [intros [-> ->]; reflexivity|intros H; inversion H; auto].
+  - rewrite andb_true_iff, opt_str_eqb_eq, String.eqb_eq. split; [intros [-> ->]; reflexivity|intros H; inversion H; auto].
+  - rewrite IHa. split; [intros ->; reflexivity|intros H; inversion H; auto].
+  - rewrite andb_true_iff, IHa, String.eqb_eq. split; [intros [-> ->]; reflexivity|intros H; inversion H; auto].
+  - rewrite !andb_true_iff, Z.eqb_eq, IHa, String.eqb_eq. split; [intros [[-> ->] ->]; reflexivity|intros H; inversion H; auto].
+  - rewrite !andb_true_iff, IHa1, IHa2, String.eqb_eq. split; [intros [[-> ->] ->]; reflexivity|intros H; inversion H; auto].
+  - rewrite !andb_true_iff, IHa, !String.eqb_eq. split; [intros [[-> ->] ->]; reflexivity|intros H; inversion H; auto].
+  - change (leqb ps ps0 && leqb rs rs0 && Bool.eqb v variadic && String.eqb p pr = true <-> YFunc ps rs v p = YFunc ps0 rs0 variadic pr).
+    rewrite !andb_true_iff, (leqb_eq ps H ps0), (leqb_eq rs H0 rs0), Bool.eqb_true_iff, String.eqb_eq.
+    split; [intros [[[-> ->] ->] ->]; reflexivity|intros E; inversion E; auto].
+  - change (list_eqb meta_eqb m meta && leqb ts ts0 && String.eqb p pr = true <-> YStruct m ts p = YStruct meta ts0 pr).
+    rewrite !andb_true_iff, (list_eqb_eq meta_eqb meta_eqb_eq), (leqb_eq ts H ts0), String.eqb_eq.
+    split; [intros [[-> ->] ->]; reflexivity|intros E; inversion E; auto].
+  - change (list_eqb String.eqb ns names && leqb ss sigs && String.eqb p pr = true <-> YIface ns ss p = YIface names sigs pr).
+    rewrite !andb_true_iff, (list_eqb_eq String.eqb String.eqb_eq), (leqb_eq ss H sigs), String.eqb_eq.
+    split; [intros [[-> ->] ->]; reflexivity|intros E; inversion E; auto].
+  - rewrite andb_true_iff, String.eqb_eq, IHa. split; [intros [-> ->]; reflexivity|intros H; inversion H; auto].
+  - rewrite String.eqb_eq. split; [intros ->; reflexivity|intros H; inversion H; auto].
+Qed.
+
+(* identical types are exactly the types with the same normal form *)
+Theorem identical_iff a b : identical a b = true <-> norm a = norm b.
+Proof. unfold identical. apply tyt_eqb_eq. Qed.
+
+Lemma identical_refl t : identical t t = true.
+Proof. apply identical_iff. reflexivity. Qed.
+Lemma identical_sym a b : identical a b = identical b a.
+Proof.
+  destruct (identical a b) eqn:E1, (identical b a) eqn:E2; try reflexivity.
+  - apply identical_iff in E1. symmetry in E1. apply identical_iff in E1. congruence.
+  - apply identical_iff in E2. symmetry in E2. apply identical_iff in E2. congruence.
+Qed.
+Lemma identical_trans a b c : identical a b = true -> identical b c = true -> identical a c = true.
+Proof. rewrite !identical_iff. congruence. Qed.
+
+(* aliases are transparent, on either side and at any depth *)
 Lemma identical_alias_l n r t : identical (YAlias n r) t = identical r t.
 Proof. reflexivity. Qed.
 Lemma identical_alias_r n r t : identical t (YAlias n r) = identical t r.
 Proof. reflexivity. Qed.
 Lemma identical_ptr a b : identical (YPtr a) (YPtr b) = identical a b.
-Proof. unfold identical. cbn [canon]. cbn. reflexivity. Qed.
+Proof. reflexivity. Qed.
 Lemma identical_slice a b p q : identical (YSlice a p) (YSlice b q) = identical a b.
-Proof. unfold identical. cbn [canon]. cbn. reflexivity. Qed.
+Proof. unfold identical. cbn [norm tyt_eqb]. rewrite String.eqb_refl, andb_true_r. reflexivity. Qed.
 
 (* basic types are compared by kind: byte is uint8, rune is int32 *)
 Lemma identical_basic k n1 n2 : identical (YBasic k n1) (YBasic k n2) = true.
-Proof. apply String.eqb_refl. Qed.
+Proof. apply identical_iff. reflexivity. Qed.
 
 (* the pointer depth counts: *T is never T *)
-Lemma length_app (a b : string) : String.length (a ++ b) = (String.length a + String.length b)%nat.
-Proof. induction a; simpl; auto. Qed.
+Fixpoint ptr_depth (t : tyt) : nat := match t with YPtr e => S (ptr_depth e) | _ => O end.
 Lemma identical_ptr_self t : identical (YPtr t) t = false.
 Proof.
-  unfold identical. apply String.eqb_neq. cbn [canon]. intros H. apply (f_equal String.length) in H. simpl in H. lia.
+  apply not_true_is_false. intros H. apply identical_iff in H. cbn [norm] in H.
+  apply (f_equal ptr_depth) in H. cbn [ptr_depth] in H. lia.
 Qed.
 Lemma identical_ptr_depth2 t : identical (YPtr (YPtr t)) (YPtr t) = false.
 Proof. rewrite identical_ptr. apply identical_ptr_self. Qed.
